@@ -244,6 +244,16 @@ def judge(W, run, trace):
             elif out.get("wrong"):
                 v(i, "define_elements", "wrong_key", {"wrong": 0}, out, role)
             continue
+        if k == "owned_result":
+            tbl = ev[1]
+            if tbl not in m.tables:
+                continue
+            role = "public" if tbl == "public" else "private"
+            if is_err(out):
+                v(i, "owned_result:" + ev[3], "exception:" + out[1], "unchanged", out, role)
+            elif out["after"] != out["before"] or not out["after"].get("routes"):
+                v(i, "owned_result:" + ev[3], "served_list_follows_callers_edit", out["before"], out["after"], role)
+            continue
         if k == "iter_interleaved":
             tbl, Z, what = ev[1], ev[2], ev[4]
             if tbl not in m.tables:
